@@ -12,7 +12,7 @@
 (***************************************************************************)
 EXTENDS Integers, Sequences, SequencesExt, FiniteSetsExt, Bitwise, TLC
 
-B == 256
+LB == 256
 Limb(s, i) == IF i >= 1 /\ i <= Len(s) THEN s[i] ELSE 0
 Max2(a, b) == IF a > b THEN a ELSE b
 Min2(a, b) == IF a < b THEN a ELSE b
@@ -31,7 +31,7 @@ IsZero(a) == Len(a) = 0
 Add(a, b) ==
   LET n == Max2(Len(a), Len(b))
       r == FoldLeftDomain(LAMBDA acc, i :
-               LET t == Limb(a,i) + Limb(b,i) + acc[1] IN <<t \div B, Append(acc[2], t % B)>>,
+               LET t == Limb(a,i) + Limb(b,i) + acc[1] IN <<t \div LB, Append(acc[2], t % LB)>>,
              <<0, <<>> >>, Zeros(n))
   IN IF r[1] = 0 THEN r[2] ELSE Append(r[2], r[1])
 
@@ -47,7 +47,7 @@ Le(a, b) == Cmp(a, b) <= 0
 Sub(a, b) ==
   LET r == FoldLeftDomain(LAMBDA acc, i :
                LET t == a[i] - Limb(b,i) - acc[1] IN
-               IF t < 0 THEN <<1, Append(acc[2], t + B)>> ELSE <<0, Append(acc[2], t)>>,
+               IF t < 0 THEN <<1, Append(acc[2], t + LB)>> ELSE <<0, Append(acc[2], t)>>,
              <<0, <<>> >>, a)
   IN Norm(r[2])
 
@@ -61,7 +61,7 @@ Mul(a, b) ==
       Col(k) == LET lo == Max2(1, k+1-lb) hi == IF k < la THEN k ELSE la
                 IN FoldSet(LAMBDA i, acc : acc + a[i]*b[k+1-i], 0, lo..hi)
       r == FoldLeftDomain(LAMBDA acc, k :
-               LET t == Col(k) + acc[1] IN <<t \div B, Append(acc[2], t % B)>>,
+               LET t == Col(k) + acc[1] IN <<t \div LB, Append(acc[2], t % LB)>>,
              <<0, <<>> >>, Zeros(n))
   IN Norm(r[2])
 
@@ -69,27 +69,27 @@ Mul(a, b) ==
 MulSmall(a, k) ==
   IF k = 0 THEN <<>> ELSE
   LET r == FoldLeftDomain(LAMBDA acc, i :
-               LET t == a[i] * k + acc[1] IN <<t \div B, Append(acc[2], t % B)>>,
+               LET t == a[i] * k + acc[1] IN <<t \div LB, Append(acc[2], t % LB)>>,
              <<0, <<>> >>, a)
       \* flush the carry (< 2^22: at most 3 limbs)
       c == r[1]
-      tail == IF c = 0 THEN <<>> ELSE IF c < B THEN <<c>>
-              ELSE IF c < B*B THEN <<c % B, c \div B>> ELSE <<c % B, (c \div B) % B, c \div (B*B)>>
+      tail == IF c = 0 THEN <<>> ELSE IF c < LB THEN <<c>>
+              ELSE IF c < LB*LB THEN <<c % LB, c \div LB>> ELSE <<c % LB, (c \div LB) % LB, c \div (LB*LB)>>
   IN r[2] \o tail
 
 \* <<quotient, remainder>> of a by a native 1 <= k < 2^22
 DivModSmall(a, k) ==
-  LET r == FoldRight(LAMBDA d, acc : LET t == acc[1] * B + d IN <<t % k, <<t \div k>> \o acc[2]>>,
+  LET r == FoldRight(LAMBDA d, acc : LET t == acc[1] * LB + d IN <<t % k, <<t \div k>> \o acc[2]>>,
                      a, <<0, <<>> >>)
   IN <<Norm(r[2]), r[1]>>
 DivSmall(a, k) == DivModSmall(a, k)[1]
-Residue(s, p) == FoldRight(LAMBDA d, acc : (acc * B + d) % p, s, 0)
+Residue(s, p) == FoldRight(LAMBDA d, acc : (acc * LB + d) % p, s, 0)
 
 FromNat(x) == LET RECURSIVE F(_)
-                  F(y) == IF y = 0 THEN <<>> ELSE <<y % B>> \o F(y \div B)
+                  F(y) == IF y = 0 THEN <<>> ELSE <<y % LB>> \o F(y \div LB)
               IN F(x)
 \* only for values known to be below 2^31
-ToNat(s) == FoldRight(LAMBDA d, acc : acc * B + d, s, 0)
+ToNat(s) == FoldRight(LAMBDA d, acc : acc * LB + d, s, 0)
 FitsNative(s) == Len(s) <= 3 \/ (Len(s) = 4 /\ s[4] < 128)
 
 One == <<1>>
@@ -155,11 +155,11 @@ DivMod(a, b) ==
   ELSE
   LET n == Len(b)
       \* top two limbs of the divisor
-      dt == b[n] * B + b[n - 1]
+      dt == b[n] * LB + b[n - 1]
       Step(acc, d) ==
         LET rem == IF acc[1] = <<>> THEN (IF d = 0 THEN <<>> ELSE <<d>>) ELSE <<d>> \o acc[1]
             \* top three limbs of rem aligned to limb n+1
-            t == (Limb(rem, n + 1) * B + Limb(rem, n)) * B + Limb(rem, n - 1)
+            t == (Limb(rem, n + 1) * LB + Limb(rem, n)) * LB + Limb(rem, n - 1)
             q0 == Min2(255, (t + 1) \div dt)          \* never below the true digit, at most 2 above
             p0 == MulSmall(b, q0)
             q1 == IF Cmp(p0, rem) > 0 THEN q0 - 1 ELSE q0
